@@ -43,6 +43,8 @@ CLAIMED["C18"] = ("noise-interposer monitor: torch.randn is replaced (TorchFunct
                   "runtime monitoring: torch-level noise interposer turning the sampler into an exactly decidable linear map")
 CLAIMED["C12"] = ("history monitor with a fresh-copy reference: random histories of 2-8 queries and derivations on ONE operator object with settings changing between steps; each answer (canonical form) is compared with the same query on a freshly built copy that saw no earlier queries, and after every step each entry of the live memo dictionaries (history object and operators derived by add_jitter / add_diagonal / add_low_rank / cat_rows / indexing / transpose / scaling / expansion) is checked to be a valid answer for its key on the matrix its owner denotes (keyed orientation of Cholesky factors, roots multiply out, eigen / singular pairs reconstruct, cached dense values / diagonals / sizes); memo getters are wrapped to count cache hits and Lanczos hook events decide which tolerance applies",
                   "runtime monitoring: recorded query histories checked against a history-free replica and a memo-validity invariant at quiescent points")
+CLAIMED["C07"] = ("gradient monitor with a differentiable dense reference: every operator is rebuilt through the library's own representation_tree from fresh leaf tensors (random requires-grad subsets, stride-0 expanded parameters, broadcast constants); autograd.grad of a random linear functional of each entry point's output w.r.t. leaves and right-hand sides must equal autograd.grad of the same functional of the torch computation on the dense matrix assembled differentiably from the same leaves (on the tangent space of the symmetric manifold for symmetric-only entry points, on the triangle for triangular leaves), for memory_efficient on/off and max_cholesky_size 0/default (stochastic trace estimates made exact by interposing the probe basis); plus a post-condition wrapped around EVERY _bilinear_derivative call (arity = number of representation tensors, each entry sum_to_size-reducible and equal to the dense-model gradient of sum(U * (A V)))",
+                  "runtime monitoring: shadow execution against a differentiable reference model plus post-condition contracts on the real derivative methods")
 PENDING = {}
 def main():
     hooks_commits = []
